@@ -223,7 +223,7 @@ func (l *Lexer) scanComment() Token {
 	l.advance()
 
 	start := l.pos
-	for l.pos < len(l.input) && l.peek() != '\n' {
+	for l.pos < len(l.input) && l.peek() != '\n' && !l.atCRLF() {
 		l.advance()
 	}
 
@@ -470,7 +470,7 @@ func (l *Lexer) scanTextUntil(stopAtOperator bool) Token {
 
 	for l.pos < len(l.input) {
 		ch := l.peek()
-		if ch == '\n' || ch == ';' || ch == '|' {
+		if ch == '\n' || ch == ';' || ch == '|' || l.atCRLF() {
 			break
 		}
 		if stopAtOperator && (ch == '@' || ch == '=') {
@@ -510,6 +510,14 @@ func (l *Lexer) skipSpaces() {
 	for l.pos < len(l.input) && (l.input[l.pos] == ' ' || l.input[l.pos] == '\t') {
 		l.advance()
 	}
+	// the carriage return of a CRLF line end belongs to the line terminator
+	if l.atCRLF() {
+		l.advance()
+	}
+}
+
+func (l *Lexer) atCRLF() bool {
+	return l.pos+1 < len(l.input) && l.input[l.pos] == '\r' && l.input[l.pos+1] == '\n'
 }
 
 func (l *Lexer) position() Position {
